@@ -8,6 +8,8 @@
 import LouModel.Table
 import LouModel.Forward
 import LouModel.Compile
+import LouModel.Backward
+import LouModel.OneToOne
 
 namespace Lou.EngineProto
 open Lou
@@ -83,6 +85,24 @@ def handle? (reg : List (String × Table)) (toks : List String) : Option String 
         let input := input.takeWhile (· != 0)
         let r := Fwd.translate t mode input cap cp cs
         pure s!"P {showWide r.out} {showInts r.map} {r.realInlen} {r.cpos} {r.cstat} rules={showRules r.applied}").getD "BADOP"
+  | ["MONETOONE", name] =>
+    some <| match reg.find? (fun (e : String × Table) => e.1 == name) with
+      | some e => if OneToOne.isOneToOne e.2 then "O2O 1" else "O2O 0"
+      | none => "BADOP"
+  | ["MBWD", name, mode, cap, cursor, inh] =>
+    some <| (do
+      let t ← (reg.find? (fun (e : String × Table) => e.1 == name)).map (fun (e : String × Table) => e.2)
+      let mode ← mode.toNat?
+      let cap ← cap.toNat?
+      let input ← parseWide inh
+      let cur : Option Int ← (if cursor == "-" then some none else cursor.toInt?.map some)
+      match Back.unsupported t with
+      | some why => pure s!"UNSUPPORTED {why}"
+      | none =>
+        let input := input.takeWhile (· != 0)
+        let r := Back.translate t mode input cap (cur.getD (-1))
+        let ms := if r.map.isEmpty then "." else ",".intercalate (r.map.map fun (o : Option Int) => match o with | some v => toString v | none => "?")
+        pure s!"P {showWide r.out} {ms} {r.realInlen} {r.cpos} {r.cstat} rules={showRules r.applied}").getD "BADOP"
   | _ => none
 
 end Lou.EngineProto
